@@ -34,6 +34,38 @@ def weights_gate(ctx, idx, rule, d, r):
     con = "%s.execute::weights-count" % d.key
     raises = [n for n in cfg.find("raise") if (n.meta.get("qual") or "").endswith("MismatchedWeights")]
     if not raises:
+        # delegated: a helper of the package is handed the weights and raises - it must do so before ANY of its returns (a check
+        # appended behind a single-input early return is skipped for one input)
+        for call in cfg.find("call"):
+            if not any((k_.arg or "").lower().startswith("weight") for k_ in call.ast.keywords) and not any(isinstance(a_, ast.Name) and "weight" in a_.id.lower() for a_ in call.ast.args):
+                continue
+            tg, how = idx.call_targets(fi, call.ast)
+            if how not in ("resolved", "self", "class") or len(tg) != 1:
+                continue
+            cf = tg[0]
+            ccfg = K.cfg_of(idx, cf)
+            crz = [n for n in ccfg.find("raise") if (n.meta.get("qual") or "").endswith("MismatchedWeights")]
+            if not crz:
+                continue
+            dom = [t for t in ccfg.find("test") if any(ccfg.dominates(t, rz) for rz in crz)]
+            cmp_ = [t for t in dom if isinstance(t.ast, ast.Compare) and len(t.ast.ops) == 1 and isinstance(t.ast.ops[0], (ast.NotEq, ast.Eq)) and K.src(t.ast).count("len(") == 2]
+            first = [t for t in dom if all(ccfg.dominates(t, u) for u in dom)]
+            if not cmp_ or not first:
+                ctx.violate(rule, con, d.module.rel, call.line, "%s hands its weights to %s, where MismatchedWeights is not raised on a comparison of the two lengths" % (d.cls.name, cf.qualname))
+                return
+            gate_ = set(cmp_) | {t for t in dom if "weight" in K.src(t.ast).lower()}
+            covers = ccfg.must_pass_through(ccfg.entry, ccfg.exit, gate_)
+            lab = "true" if isinstance(cmp_[0].ast.ops[0], ast.NotEq) else "false"
+            succ = [m for m, l in cmp_[0].succ if l == lab]
+            raises_all = bool(succ) and all(ccfg.must_pass_through(m, ccfg.exit, set(crz)) for m in succ)
+            uses = cfg.find("aug") + cfg.find("call", lambda c: (c.meta.get("qual") or "") in ("builtins.zip", "builtins.sum"))
+            muls = [n for n in cfg.find("sub") if isinstance(n.ast.slice, ast.Constant) and isinstance(n.ast.slice.value, int)]
+            late = [u for u in uses + muls if u in cfg.reachable() and not cfg.dominates(call, u)]
+            ok = covers and raises_all and not late
+            ctx.ob(rule, con, d.module.rel, call.line, ok, "the weight count is checked by %s before it returns on any path, and before any arithmetic" % cf.qualname if ok else
+                   ("%s checks the weight count only on some of its paths: a return (the single-input shortcut, say) comes first, so one input with several weights is not refused - the extra weights are silently dropped" % cf.qualname if not covers
+                    else "MismatchedWeights is not raised exactly when the lengths differ in %s" % cf.qualname if not raises_all else "`%s` can run before the weight count is checked" % late[0].text()))
+            return
         ctx.violate(rule, con, d.module.rel, fi.node.lineno, "%s never raises MismatchedWeights: a wrong number of weights is silently truncated by zip()" % d.cls.name)
         return
     tests = [t for t in cfg.find("test") if any(cfg.dominates(t, rz) for rz in raises) and isinstance(t.ast, ast.Compare)]
